@@ -103,9 +103,13 @@ func ZZ_C03_Boundary() {
 	n := zz.Range("n", 0, zz.Param("N", 5))
 	b := zz.Bytes("ct", n)
 	var h RequestHeader
-	h.SetContentTypeBytes(append([]byte("multipart/form-data; "), b...))
-	_ = h.MultipartFormBoundary()
+	// the symbolic bytes follow either the media type or the "boundary=" parameter name, so that
+	// the value handling (quotes, following parameters) is reached within the same bound
+	prefix := []string{"multipart/form-data; ", "multipart/form-data; boundary=", "multipart/form-data;a=b; boundary="}[zz.Choose("shape", 3)]
+	h.SetContentTypeBytes(append([]byte(prefix), b...))
+	r := h.MultipartFormBoundary()
 	zz.Cover("reached-end", true)
+	zz.Cover("boundary-found", len(r) > 0)
 }
 
 // ZZ_C03_ParseUint: decimal parser used for Content-Length, max-age, ranges.
